@@ -13,6 +13,7 @@ import (
 // struct held.
 type GuardSpec struct {
 	Type   string   // "pkg/rel:TypeName"
+	Sub    string   // optional: name of an anonymous-struct field of Type that holds both the mutex and the fields
 	Mutex  string   // mutex field name (embedded mutexes: "RWMutex"/"Mutex")
 	Fields []string // guarded fields
 	// Exempt: function short names (shortName) that may touch the field without the lock, each with
@@ -29,13 +30,35 @@ type GuardSpec struct {
 func checkGuarded(c *Ctx, lc *LockCtx, scope []*ssa.Function, spec GuardSpec) int {
 	n := 0
 	tn := spec.Type[strings.IndexByte(spec.Type, ':')+1:]
+	lookup := func(name string) *types.Var {
+		if spec.Sub == "" {
+			return c.P.FieldVar(spec.Type, name)
+		}
+		sub := c.P.FieldVar(spec.Type, spec.Sub)
+		if sub == nil {
+			return nil
+		}
+		st, ok := sub.Type().Underlying().(*types.Struct)
+		if !ok {
+			return nil
+		}
+		for i := 0; i < st.NumFields(); i++ {
+			if st.Field(i).Name() == name {
+				return st.Field(i)
+			}
+		}
+		return nil
+	}
+	if spec.Sub != "" {
+		tn += "." + spec.Sub
+	}
 	for _, f := range spec.Fields {
-		fv := c.P.FieldVar(spec.Type, f)
+		fv := lookup(f)
 		if fv == nil {
 			c.Undecided("anchor", spec.Type+"."+f, "guarded field does not resolve")
 			continue
 		}
-		if c.P.FieldVar(spec.Type, spec.Mutex) == nil {
+		if lookup(spec.Mutex) == nil {
 			c.Undecided("anchor", spec.Type+"."+spec.Mutex, "mutex field does not resolve")
 			continue
 		}
